@@ -986,7 +986,8 @@ mutual
         if atEof c then pure (st, acc) else do
         skipWs
         let st' ← getPos
-        if inBlock && (← maybe (lit "}")).isSome then pure (st', acc)
+        let closing ← if inBlock then maybe (lit "}") else pure none
+        if closing.isSome then pure (st', acc)
         else do
           let stmt ← match ← maybe (orElse labelP (orElse (assignmentP fuel) (orElse (instructionP fuel) (wordListP fuel)))) with
             | some s => pure s
